@@ -3,7 +3,7 @@ From Coq Require Import List Arith.
 Import ListNotations.
 From Exmex.Model Require Import Base EvalBinary Lexer Flat Deep Convert.
 From Exmex.Spec Require Import RefSem.
-From Exmex.Proofs Require Import DeepSem DeepSubs C11Main DeepParse C03Main DeepOps Unparse UnparseParsed UokOps ParseAny Printable.
+From Exmex.Proofs Require Import DeepSem DeepSubs C11Main DeepParse C03Main DeepOps Unparse UnparseParsed UokOps ParseAny Printable LexLocal PrintedText.
 Open Scope nat_scope.
 
 (* `_partial`: a flat expression obtained by parsing prints exactly the text it was parsed from (for every text,
@@ -163,3 +163,30 @@ Print Assumptions C12_operator_application_and_substitution_keep_printable.
 Print Assumptions C12_printable_expressions_print_and_parse_back.
 Print Assumptions C12_flat_from_deep_prints_the_deep_text.
 Print Assumptions C12_derived_expressions_meet_the_premises.
+
+(* 6. TEXT level (Proofs/LexLocal.v, Proofs/PrintedText.v).  unparse prints the tokens without any space.  Whenever every printed
+   token is readable in front of the text that follows it -- the literal matcher takes exactly the Debug text of a number there
+   and reads it back, it takes nothing of an operator name, and the operator search finds the operator by its name there (in a
+   table with distinct names: it matches and no longer name does, C13) -- the tokenizer maps the printed text back to exactly
+   these tokens, so DeepEx::parse (unparse e) succeeds, lists the same variables, is printable again and has the same value at
+   every assignment.  What remains outside the theorems is only whether a concrete table and literal matcher meet the local
+   conditions on a concrete printed text (`1.0--2.0` with a `--` operator does not) -- covered by the correspondence. *)
+Theorem C12_printed_text_is_read_back_to_its_tokens :
+  forall (D : Type) (C : carrier D) (tb : optable) (is_literal : str -> option nat) (ts : list (token D)),
+  all_readable C tb is_literal (printed ts) [] -> tokenize C tb is_literal (render C tb ts) = Ok ts.
+Proof. exact @printed_text_tokenizes. Qed.
+Theorem C12_printable_expressions_print_text_that_parses_back :
+  forall (D : Type) (C : carrier D) (tb : optable) (is_literal : str -> option nat) (R : D -> D -> Prop),
+  (forall a, R a a) -> (forall a b, R a b -> R b a) -> (forall a b c, R a b -> R b c -> R a c) ->
+  (forall k a a' b b', R a a' -> R b b' -> R (binf C k a b) (binf C k a' b')) ->
+  (forall k a a', R a a' -> R (unf C k a) (unf C k a')) ->
+  (forall o, comm_of tb o = true -> forall a b c, R (binf C o (binf C o a b) c) (binf C o a (binf C o b c))) ->
+  forall e : deepex D, printable tb e ->
+  all_readable C tb is_literal (printed (utoks e)) [] ->
+  exists txt e', unparse C tb e = Some txt /\ parse_deep C tb is_literal txt = Ok e' /\
+    dvars e' = dvars e /\ printable tb e' /\
+    forall vals, length vals = length (dvars e) ->
+    exists v v', eval_deep C e vals = Ok v /\ eval_deep C e' vals = Ok v' /\ R v' v.
+Proof. exact @printed_text_round_trip. Qed.
+Print Assumptions C12_printed_text_is_read_back_to_its_tokens.
+Print Assumptions C12_printable_expressions_print_text_that_parses_back.
